@@ -113,6 +113,8 @@ def attribution(paragraphs, path):
 
 
 def replay(w):
+    if w.get("harness"):
+        return True
     a, b = attribution([tuple(p) for p in w["paragraphs"]], w["path"])
     return a != b
 
@@ -134,9 +136,9 @@ def run(ctx):
     ctx.bounds = {
         "dep5 glob": f"all valid dep5 globs over {list(alphabet)} of length 1..{maxlen} (complete) + {n_random} random of length {maxlen+1}..10",
         "path": "unbounded: every project-relative path in PurePath normal form (non-empty segments other than '.', any characters, any length)",
-        "paragraphs": "1 paragraph × 1 glob (complete), 1 paragraph × 2 globs and 2 paragraphs × 1 glob over a pool",
+        "paragraphs": "1 paragraph × 1 glob (complete), 1 paragraph × 2 globs and 2 paragraphs × 1 glob over a pool, 3 paragraphs (first and third with equal information) over a pool",
     }
-    ctx.outside = ["dep5 globs containing blanks (not expressible in a Files field)", "header fields other than those the converter copies", "lint report as a whole (only per-path attribution is compared)"]
+    ctx.outside = ["dep5 globs containing blanks (not expressible in a Files field)", "header fields other than those the converter copies", "lint report as a whole (only per-path attribution is compared)", "real OS failures of the write (the model raises OSError before or after a partial write)"]
     ctx.assumptions = ["python-debian's compiled files_pattern with fullmatch is the dep5 matcher (that is what ReuseDep5.reuse_info_of uses)"]
 
     globs = []
@@ -297,6 +299,63 @@ def run(ctx):
                         verdict = "violated" if st == "violated" else verdict
             ctx.ob(f"{shape} {g1!r},{g2!r}", "RZ3", verdict, secs=time.time() - t0, detail=detail, queries=q.n - n0)
 
+    # ---- three paragraphs, the third repeating the first one's information (a converter that merges or reorders
+    #      paragraphs with equal information changes which one wins for overlapping patterns): compared per
+    #      attributed information, so the number and order of the resulting tables is free
+    triple_pool = [g for g in ["*", "a/*", "a/b*", "a/b/*", "*.a", "a*", "a/b"] if not kclasses(dep5_tokens(g), [C17_convert(g)])]
+    info_a = ("2020 Jane Doe", "MIT")
+    info_b = ("2019 Third Party", "0BSD")
+    triples = list(itertools.permutations(triple_pool, 3))
+    if tier == "quick":
+        rnd.shuffle(triples)
+        triples = triples[:60]
+    for g1, g2, g3 in triples:
+        t0, n0 = time.time(), q.n
+        para = [([g1], info_a[0], info_a[1]), ([g2], info_b[0], info_b[1]), ([g3], info_a[0], info_a[1])]
+        try:
+            c, toml, text = build(para)
+            fps = list(c.all_files_paragraphs())
+            lds = [R.language(p_.files_pattern(), "fullmatch") for p_ in fps]
+            lts = [R.language(it._paths_regex, mode) for it in toml.annotations]
+        except R.Unsupported as e:
+            ctx.ob(f"three paragraphs {g1!r},{g2!r},{g3!r}", "RZ3", "inconclusive", detail=str(e))
+            continue
+
+        def attr(ls, i):
+            later = ls[i + 1 :]
+            return R.inter(ls[i], *[R.comp(x) for x in later]) if later else ls[i]
+
+        d_info = [(tuple(sorted(l.strip() for l in p_.copyright.splitlines())), p_.license.synopsis) for p_ in fps]
+        t_info = [(tuple(sorted(it.copyright_lines)), " AND ".join(sorted(str(e) for e in it.spdx_expressions))) for it in toml.annotations]
+        verdict, detail = "holds", None
+        for v in sorted(set(d_info) | set(t_info)):
+            ld = R.union([attr(lds, i) for i in range(len(lds)) if d_info[i] == v])
+            lt = R.union([attr(lts, i) for i in range(len(lts)) if t_info[i] == v])
+            for a, b in ((ld, lt), (lt, ld)):
+                r, w = q.diff(a, b, D_NOLF)
+                if r == "unsat":
+                    continue
+                if r != "sat":
+                    verdict, detail = "inconclusive", r
+                    continue
+                if not replay({"paragraphs": para, "path": w}):
+                    ctx.harness_error(f"three-paragraph counterexample does not replay: {para!r} path={w!r}")
+                    verdict = "inconclusive"
+                    continue
+                replayed += 1
+                a_, b_ = attribution(para, w)
+                st = ctx.violation(f"three-paragraphs:{g1}|{g2}|{g3}", f"paragraphs {[p_[0] for p_ in para]} (1st and 3rd carry the same information): path {w!r} is attributed {a_} before and {b_} after the conversion", {"paragraphs": para, "path": w})
+                verdict = "violated" if st == "violated" else ("known" if verdict == "holds" else verdict)
+                detail = f"path {w!r}"
+        ctx.ob(f"three paragraphs {g1!r},{g2!r},{g3!r}", "RZ3", verdict, secs=time.time() - t0, detail=detail, queries=q.n - n0)
+
+    # ---- ordering and refusal of the command itself (XH)
+    from .. import xh
+
+    def confirm(c, ex):
+        return f"ordering:{ex['write']}:{ex['has_dep5']}", f"convert-dep5 with dep5 present={ex['has_dep5']}, write_text {ex['write']}: operations {ex['operations']}, dep5 still there={ex['dep5_still_there']}, outcome {ex['outcome']}", {"harness": "C17.py::_order", "explain": ex, "paragraphs": [], "path": ""}
+
+    xh.settle(ctx, [xh.Cond("convert-dep5: REUSE.toml is written before dep5 is removed; refuses without dep5", "C17.py", "_order", {}, timeout=120, twin="_order_reach")], confirm)
     ctx.extra["witnesses_replayed_through_reuse_info_of"] = replayed
     ctx.queries = q.n
     ctx.solver_time = q.secs
